@@ -15,4 +15,9 @@ MUTANTS = [
   "edits": [(P, "let dewey = Some(Dewey::new(pattern)?);", "let dewey = Dewey::new(pattern).ok();")], "expect": ["D4-PATTERN-AGREES"]},
  {"id": "bound-version-from-whole-pattern", "kind": "break", "edits": [(D, "let version = DeweyVersion::new(pattern);\n        Ok(DeweyMatch {", "let version = DeweyVersion::new(pattern.trim_start_matches('='));\n        Ok(DeweyMatch {")], "expect": ["D1-BOUND"]},
  {"id": "trivial-lower-bound-dropped", "kind": "break", "edits": [(D, "        let pkgname = pattern[0..deweyops[0].0].to_string();", "        if matches.len() == 2 && matches[0].version.version.is_empty() {\n            matches.remove(0);\n        }\n        let pkgname = pattern[0..deweyops[0].0].to_string();")], "expect": ["D1-BOUNDS-KEPT"]},
+
+ {"id": "benign-name-split-extracted-into-helper", "kind": "benign",
+  "edits": [(D, "        let v: Vec<&str> = pkg.rsplitn(2, '-').collect();\n        if v.len() != 2 {\n            return false;\n        }\n        if v[1] != self.pkgname {\n            return false;\n        }\n        let pkgver = DeweyVersion::new(v[0]);",
+                "        let Some((base, ver)) = split_pkgname(pkg) else {\n            return false;\n        };\n        if base != self.pkgname {\n            return false;\n        }\n        let pkgver = DeweyVersion::new(ver);"),
+            (D, "impl Dewey {\n", "fn split_pkgname(pkg: &str) -> Option<(&str, &str)> {\n    let v: Vec<&str> = pkg.rsplitn(2, '-').collect();\n    if v.len() != 2 {\n        return None;\n    }\n    Some((v[1], v[0]))\n}\n\nimpl Dewey {\n")]},
 ]
